@@ -114,3 +114,13 @@ def register_all(prop):
                "keep-alive user connections, h2c and a vhost port shared with the control port. non-trivial = lookup with >= 2 matching routes of "
                "different specificity, or unmatched lookup on a non-empty table; distinct = distinct case."),
          assumptions=["internationalised host names are outside the generated domain"])
+    prop("C07", qshards=8, tshards=16, qlimit=480, tlimit=3000,
+         rule=("http_routes: 1..5 routes on shared hosts (exact, wildcard, catch-all; locations) that are unprotected, protected, user-routed + protected "
+               "or user-routed only, and 2..10 requests in origin-form, absolute-form, CONNECT, HTTP/1.0 and h2c with credentials in Authorization and/or "
+               "Proxy-Authorization (exact, wrong password, wrong user, another pair, empty user, empty password, malformed base64, lower-case scheme, no "
+               "scheme; header-name casing varied), sent over TCP to vhost.HTTPReverseProxy; in-memory backends log which request ids they saw. Negative "
+               "oracle: a protected backend saw a request => the request carried exactly that route's user:password; a route restricted to a user is only "
+               "reached by a request presenting that user; 401 => challenge present and no backend reached; positive control for exact credentials. "
+               "tcpmux_connect, client_plugins (http_proxy, socks5, static_file through plugin.Create().Handle over pipes) and web_apis (frps dashboard "
+               "and frpc admin API, every registered route x methods) use the same credential grammar. non-trivial = a protected route/service is addressed."),
+         assumptions=["/healthz of the web servers is an unauthenticated liveness endpoint by design and is not claimed", "pprof endpoints are not enabled"])
